@@ -38,8 +38,9 @@ HandlesEq(t, hs) == /\ Len(hs) = Len(t.handles)
                     /\ \A k \in 1..Len(hs) : hs[k].up = (t.handles[k].g \in t.upg) /\ hs[k].closed = hs[k].up
 DiskEq(t, tags) == \A i \in I : tags[i] = t.disk[i].tag
 
-Match(x, ob) ==
-    /\ x.reqs = ob.reqs
+\* (the requests of a call with a cancelled context are not judged: they may or may not reach a server)
+Match(x, ob, cancelled) ==
+    /\ cancelled \/ x.reqs = ob.reqs
     /\ \A r \in R : VersEq(x.st.res[r], ob.res[r]) /\ AvEq(x.st.res[r], ob.res[r])
                     /\ x.st.res[r].sel = ob.res[r].sel /\ x.st.res[r].act = ob.res[r].act
     /\ x.st.files = Range(ob.files)
@@ -48,20 +49,22 @@ Match(x, ob) ==
 
 \* requirements on the parts that are judged by predicates (F6, the returned path, nothing unexpected)
 Extra(s, x, ev) ==
-    LET t == ObsUpd(ev.obs.upd) IN
-    UpdViolations(s.upd, s.clock, x.u, t)
-    \cup NoteViolations(x.opid, x.u.att, s.upd, t, ObsNotes(ev.obs.notes))
+    LET t == ObsUpd(ev.obs.upd)
+        p == IF ev.op.op = "Restart" THEN NoUpd ELSE s.upd       \* a new registry starts with an empty update state
+    IN
+    UpdViolations(p, s.clock, x.u, t)
+    \cup NoteViolations(x.opid, x.u.att, p, t, ObsNotes(ev.obs.notes), ev.op.mode # "cancelled")
     \cup (IF ev.obs.state.id = "ready" /\ ev.obs.state.dn = -1 THEN {} ELSE {"state-not-ready-after-call"})
     \cup (IF ev.obs.odd = 0 THEN {} ELSE {"unexpected-files-or-entries"})
     \cup (IF ev.op.op = "GetFile" /\ ev.res.err = "" /\ ~ev.res.pok THEN {"file-path"} ELSE {})
 
-Candidates(s, ev) == {x \in Step(s, ev.op) : ev.res.err \in x.errs /\ ev.res.v = x.v}
+Candidates(s, ev) == IF ev.res.panic # "" THEN {} ELSE {x \in Step(s, ev.op) : ev.res.err \in x.errs /\ ev.res.v = x.v}
 
 \* the model states after the call for candidate state s ({} = s does not explain the call)
 Nexts(s, ev) ==
     LET t == ObsUpd(ev.obs.upd)
         c == Max({s.clock, t.chkAt, t.dlAt, t.succAt})
-    IN {[x.st EXCEPT !.upd = t, !.clock = c] : x \in {y \in Candidates(s, ev) : Match(y, ev.obs) /\ Extra(s, y, ev) = {}}}
+    IN {[x.st EXCEPT !.upd = t, !.clock = c] : x \in {y \in Candidates(s, ev) : Match(y, ev.obs, ev.op.mode = "cancelled") /\ Extra(s, y, ev) = {}}}
 
 Smallest(SS) == CHOOSE a \in SS : \A b \in SS : Cardinality(a) <= Cardinality(b)
 
@@ -69,12 +72,12 @@ Smallest(SS) == CHOOSE a \in SS : \A b \in SS : Cardinality(a) <= Cardinality(b)
 Verdict(s, ev) ==
     IF ev.res.panic # "" THEN {"panic"}
     ELSE LET C == Candidates(s, ev)
-             M == {x \in C : Match(x, ev.obs)}
+             M == {x \in C : Match(x, ev.obs, ev.op.mode = "cancelled")}
              ob == ev.obs
          IN IF C = {} THEN {"result"}
             ELSE IF M # {} THEN Smallest({Extra(s, x, ev) : x \in M})
             ELSE LET again == \E j \in DOMAIN ob.reqs : ob.reqs[j].k = "file" /\ ob.reqs[j].a \in R /\ ob.reqs[j].v \in s.res[ob.reqs[j].a].av
-                     parts == (IF \E x \in C : x.reqs = ob.reqs THEN {} ELSE IF again THEN {"requested-available-version"} ELSE {"requests"})
+                     parts == (IF ev.op.mode = "cancelled" \/ \E x \in C : x.reqs = ob.reqs THEN {} ELSE IF again THEN {"requested-available-version"} ELSE {"requests"})
                               \cup (IF \E x \in C : \A r \in R : VersEq(x.st.res[r], ob.res[r]) THEN {} ELSE {"versions"})
                               \cup (IF \E x \in C : \A r \in R : AvEq(x.st.res[r], ob.res[r]) THEN {} ELSE {"available-flag"})
                               \cup (IF \E x \in C : \A r \in R : x.st.res[r].sel = ob.res[r].sel THEN {} ELSE {"selected"})
